@@ -31,7 +31,7 @@ from bounded.seams import (api, L, load_corpus, corpus_files, plain, norm, gener
 def _valid_docs(tier, seed):
     out = []
     for key, root, path in generated_documents(tier, seed, n_random=20 if tier != "thorough" else 200):
-        if key.startswith("symbol.backgroundcolor") or key.startswith("outputformat.imagemode:enum:FEATURE"):
+        if key.startswith("outputformat.imagemode:enum:FEATURE"):
             continue
         out.append((key, root, path))
     return out
